@@ -34,7 +34,7 @@ theorem ViewOK.of_same {d d' : Disk} {must must' issued issued' : List Grp} {v :
   · intro g hg g' hg'; rw [hl] at hg hg'; exact h.tdisj g hg g' hg'
   · intro p hp g hg; rw [hj] at hp
     obtain ⟨a, b⟩ := h.jseq p hp g hg
-    exact ⟨a, hi g b⟩
+    exact ⟨a.imp id (fun x y => x (hm g y)), hi g b⟩
   · intro g hg p hp g' hg'; rw [hl] at hg; rw [hj] at hp; exact h.tj g hg p hp g' hg'
   · intro g hg; rw [hl, hj]; exact h.cover g (hm g hg)
   · exact h.jnf
